@@ -91,7 +91,7 @@ def randomised(cfg):
 # --------------------------------------------------------------------------------------------------
 
 CONTAINERS = ("list", "ndarray", "ndarray_F", "ndarray_slice", "ndarray_T", "ndarray_float", "ndarray_f32", "series_frame",
-              "frame_F", "series_auto", "ndarray_i8", "ndarray_i16", "ndarray_u8")
+              "frame_F", "series_auto", "ndarray_i8", "ndarray_i16", "ndarray_u8", "series_idx")
 NARROW = {"ndarray_i8": np.int8, "ndarray_i16": np.int16, "ndarray_u8": np.uint8}
 
 
@@ -114,6 +114,10 @@ def _vec(values, kind, is_reward):
         arr = arr.astype(float)
     if kind in ("series_frame", "frame_F", "series_auto"):
         return pd.Series(arr)
+    if kind == "series_idx":
+        # a Series cut out of a larger frame: its index labels do not contain 0 and run backwards
+        idx = [100 + 3 * (len(arr) - 1 - i) for i in range(len(arr))]
+        return pd.Series(arr, index=idx, name="col")
     if kind == "ndarray_slice":
         big = np.empty(2 * len(arr), dtype=arr.dtype)
         big[::2] = arr
@@ -156,6 +160,9 @@ def _mat(rows, kind):
         return big[:, ::2]
     if kind == "series_frame":
         return pd.DataFrame(arr)
+    if kind == "series_idx":
+        idx = [100 + 3 * (arr.shape[0] - 1 - i) for i in range(arr.shape[0])]
+        return pd.DataFrame(arr, index=idx, columns=["f%d" % (arr.shape[1] - j) for j in range(arr.shape[1])])
     if kind == "frame_F":
         return pd.DataFrame(np.asfortranarray(arr))
     return arr
